@@ -751,7 +751,8 @@ pub fn run(args: &crate::Args) {
     let mut orc = std::io::BufWriter::new(std::fs::File::create(format!("{dir}/oracle.jsonl")).unwrap());
     let mut meta = std::io::BufWriter::new(std::fs::File::create(format!("{dir}/scenarios.jsonl")).unwrap());
     let mut stats = Counter::new();
-    let utils = std::fs::read("/repo/src/templates/utils.rs").unwrap_or_default();
+    let repo = std::env::var("VERIF_REPO").unwrap_or_else(|_| "/repo".into());
+    let utils = std::fs::read(format!("{repo}/src/templates/utils.rs")).unwrap_or_default();
     writeln!(req, "setutils {}", hex(&utils)).unwrap();
     writeln!(imp, "ok").unwrap();
     // C18: the code generated for (function name, template bytes) must be the same everywhere
